@@ -284,7 +284,7 @@ def simple_check(pid, tier, seed, extra=None):
         judge(rep, pid, tier, seed, args=la, what="random adversarial schedules against a lone real node (all other keys held by the adversary)")
     if pid in ("C07", "C08", "C09", "C11", "C12"):
         proof_table(rep, pid, tier, seed)
-    if pid in ("C08", "C10"):
+    if pid in ("C08", "C10", "C12"):   # (C12: a call of the message log that panics or does not return)
         storage_trees(rep, pid, tier, seed)
     if pid in ("C01", "C04", "C07", "C08", "C10"):
         from props import specreplay
